@@ -11,8 +11,16 @@ Line driver for the `DebuggingRecorder` model (component `debug`).
   debug <rid> <tid> snapshot                      entries in order, `;`-separated (`empty` if none)
   debug <rid> <tid> snapshotmap                   the same snapshot, entries sorted (came out of a HashMap)
 
-`tid` (the thread issuing the call) must be a number; the model does not depend on it.
-Entry: `<c|g|h>/<name>/<labels as shown>/<unit|~>/<desc|~>/<value>`; histogram values sorted as tokens.
+  debug sc <tid> enter <rid>                      `with_local_recorder(&rec, || {` / `set_default_local_recorder`
+  debug sc <tid> exit <0|1>                       the scope ends by return (0) or by unwinding (1)
+  debug sc <tid> install <rid>                    `rec.install()`: `ok` | `err` (a global recorder is already set)
+  debug sc <tid> target                           what `with_recorder` finds: `r<rid>` | `noop`
+  debug sc <tid> cur <describe…|register…|cinc…|…>  a call through `with_recorder` / a macro; answers the recorder
+                                                  reached (`r<rid>` | `noop`)
+
+The global recorder has id `globalId` = 1000; it survives `debug new` (a process has one global recorder).
+`tid` (the thread issuing the call) must be a number; the direct calls of the model do not depend on it.
+Entry: `<c|g|h>/<name>/<labels as shown>/<unit|~>/<desc|~>/<value>`; histogram values in the order shown (newest block first, each block in record order).
 -/
 import MetricsVerif.Driver.Util
 import MetricsVerif.Driver.C08
@@ -27,12 +35,36 @@ open MetricsVerif.Driver MetricsVerif.Prom MetricsVerif.PromFmt MetricsVerif.Deb
 structure DSt where
   n : Nat
   states : List Debugging.St
+  /-- the globally installed recorder's state (id `globalId`) -/
+  glob : Debugging.St := init
+  sc : Scopes := {}
 
-def DSt.sys (d : DSt) : Sys := fun r => d.states.getD r init
+def globalId : Nat := 1000
+
+def DSt.sys (d : DSt) : Sys := fun r => if r = globalId then d.glob else d.states.getD r init
+
+/-- the system's states evaluated -/
+def DSt.ofSys (d : DSt) (sys : Sys) (sc : Scopes) : DSt :=
+  { d with states := (List.range d.n).map sys, glob := sys globalId, sc := sc }
 
 /-- one model step of the system, then its states evaluated -/
 def DSt.next (d : DSt) (a : Nat × Debugging.Op) : DSt :=
-  { d with states := (List.range d.n).map (sysStep d.sys a) }
+  d.ofSys (sysStep d.sys a) d.sc
+
+/-- one step of the scoped system -/
+def DSt.snext (d : DSt) (a : Tid × SOp) : DSt :=
+  let s := sStep ⟨d.sys, d.sc⟩ a
+  d.ofSys s.sys s.sc
+
+/-- what survives the end of a case: the global recorder (a process has one, installed once) and its state;
+    no local recorders (`debug new` creates them), no open scopes -/
+def carry : Option DSt → Option DSt
+  | some d => some { n := 0, states := [], glob := d.glob, sc := { global := d.sc.global } }
+  | none => none
+
+def showTarget : Option Rid → String
+  | some r => s!"r{r}"
+  | none => "noop"
 
 def kindTok (s : String) : Option Kind :=
   match s with
@@ -54,7 +86,7 @@ def showLabels (ls : List (Str × Str)) : String :=
 def showValue : DValue → String
   | .counter n => s!"c{n}"
   | .gauge v => showVal v
-  | .histogram vs => showList id ((vs.map showVal).mergeSort (fun a b => decide (a ≤ b)))
+  | .histogram vs => showList id (vs.map showVal)
 
 def showEntry (e : Entry) : String :=
   let u := match e.unit with | some u => u.asStr | none => "~"
@@ -84,12 +116,35 @@ def handle (st : Option DSt) (args : List String) : Option (Option DSt × String
   match args with
   | ["new", n] => do
     let n ← n.toNat?
-    if n = 0 then none else pure (some ⟨n, (List.range n).map sysInit⟩, "ok")
+    if n = 0 ∨ n > globalId then none else
+    -- the global recorder and its state survive; every thread is outside any scope again
+    let (glob, global) := match st with
+      | some d => (d.glob, d.sc.global)
+      | none => (init, none)
+    pure (some { n := n, states := (List.range n).map sysInit, glob := glob, sc := { global := global } }, "ok")
+  | "sc" :: tid :: rest => do
+    let d ← st
+    let tid ← tid.toNat?
+    match rest with
+    | ["enter", r] =>
+      let r ← r.toNat?
+      if r ≥ d.n then none else pure (some (d.snext (tid, .enter r)), "ok")
+    | ["exit", "0"] => pure (some (d.snext (tid, .exit false)), "ok")
+    | ["exit", "1"] => pure (some (d.snext (tid, .exit true)), "ok")
+    | ["install", r] =>
+      let r ← r.toNat?
+      if r ≥ d.n ∧ r ≠ globalId then none else
+      pure (some (d.snext (tid, .install r)), if d.sc.global.isNone then "ok" else "err")
+    | ["target"] => pure (some d, showTarget (target d.sc tid))
+    | "cur" :: opArgs =>
+      let op ← parseOp opArgs
+      pure (some (d.snext (tid, .cur op)), showTarget (target d.sc tid))
+    | _ => none
   | rid :: tid :: rest => do
     let d ← st
     let rid ← rid.toNat?
     let _ ← tid.toNat?
-    if rid ≥ d.n then none else
+    if rid ≥ d.n ∧ rid ≠ globalId then none else
     match rest with
     | ["snapshot"] =>
       let es := sysOutput d.sys (rid, .snapshot)
